@@ -21,7 +21,8 @@ class Summary:
     def __init__(self, fi):
         self.fi = fi
         self.returns = set()        # {'fresh'} | {'param:x'} ...
-        self.mutates = {}           # param name -> [(node, text)]
+        self.mutates = {}           # param name -> [(node, text)]   (any store that reaches the parameter: attribute rebinding or in-place)
+        self.deep = {}              # param name -> {field or '*': [(node, text)]}   in-place stores into the *contents* of an attribute of the parameter
         self.stores = []            # (node, root class, text)
         self.calls = []             # (callee FuncInfo, node)
 
@@ -32,6 +33,7 @@ class Effects:
         self.param_types = param_types or {}    # (func qual, param) -> class name
         self.cache = {}
         self.active = set()
+        self.fields = {}            # during one function: fresh local object -> {attribute: classes of the value stored there}
 
     # ---- callee resolution (E2-lite)
     def resolve_call(self, fi, c, env_types):
@@ -87,7 +89,11 @@ class Effects:
         if isinstance(e, ast.Name):
             return set(env.get(e.id, {'fresh'} if e.id not in fi.params else {'param:' + e.id}))
         if isinstance(e, ast.Attribute):
+            if isinstance(e.value, ast.Name) and e.value.id in self.fields and e.attr in self.fields[e.value.id]:
+                return set(self.fields[e.value.id][e.attr])        # what a fresh local object's attribute was set to
             base = self.classify(e.value, env, fi, env_types)
+            if e.attr not in ('shape', 'ndim', 'size', 'dtype', 'value', 'unit', 'T'):
+                base = {(c + '.' + e.attr) if (c.startswith('param:') and '.' not in c) else c for c in base}
             # property getters that build a new array are fresh
             if isinstance(e.value, ast.Name):
                 cn = env_types.get(e.value.id)
@@ -162,6 +168,7 @@ class Effects:
         if fi.qual in self.active:
             return s
         self.active.add(fi.qual)
+        saved_fields, self.fields = self.fields, {}
         env = {p: {'param:' + p} for p in fi.params}
         env_types = {}
         if fi.cls is not None and fi.params and 'staticmethod' not in fi.decorators and 'classmethod' not in fi.decorators:
@@ -171,32 +178,42 @@ class Effects:
             if t:
                 env_types[p] = self.repo.cls(*t)
         self._block(fi.node.body, env, env_types, fi, s)
+        self.fields = saved_fields
         self.active.discard(fi.qual)
         if not s.returns:
             s.returns = {'fresh'}
         self.cache[fi.qual] = s
         return s
 
-    def _record_store(self, target, env, env_types, fi, s, node):
-        # root of the target access path
+    def _note(self, s, cls, node, txt, deep_field=None):
+        s.stores.append((node, cls, txt))
+        if cls.startswith('param:'):
+            p, _, f = cls[6:].partition('.')
+            s.mutates.setdefault(p, []).append((node, txt))
+            if deep_field is not None:
+                s.deep.setdefault(p, {}).setdefault(f or deep_field or '*', []).append((node, txt))
+
+    def _record_store(self, target, env, env_types, fi, s, node, value=None):
         t = target
-        classes = None
         if isinstance(t, ast.Name):
             return
-        path = t
-        while isinstance(path, (ast.Attribute, ast.Subscript)):
-            inner = path.value
-            if isinstance(inner, ast.Name):
-                break
-            path = inner
-        base = path.value if isinstance(path, (ast.Attribute, ast.Subscript)) else path
-        # classify the object being mutated: for x.a = v the object is x ; for x.a[i] = v it is x.a (alias of x) ; x[i] = v -> x
+        txt = up(node).split('\n')[0][:100]
+        if isinstance(t, ast.Attribute):
+            # obj.attr = v : rebinding an attribute of obj (shallow)
+            if isinstance(t.value, ast.Name) and t.value.id not in fi.params and env.get(t.value.id, {'fresh'}) == {'fresh'} and value is not None:
+                self.fields.setdefault(t.value.id, {})[t.attr] = self.classify(value, env, fi, env_types)
+            for c in self.classify(t.value, env, fi, env_types):
+                if c.startswith('param:') and '.' in c:
+                    self._note(s, c, node, txt, deep_field='*')        # attribute of an object held in the parameter's attribute
+                else:
+                    self._note(s, c, node, txt)
+            return
+        # x[...] = v , x.a[...] = v , x[...][...] = v : in-place store into the array x / x.a
         obj = t.value
-        classes = self.classify(obj, env, fi, env_types)
-        for c in classes:
-            s.stores.append((node, c, up(node).split('\n')[0][:100]))
-            if c.startswith('param:'):
-                s.mutates.setdefault(c[6:], []).append((node, up(node).split('\n')[0][:100]))
+        while isinstance(obj, ast.Subscript):
+            obj = obj.value
+        for c in self.classify(obj, env, fi, env_types):
+            self._note(s, c, node, txt, deep_field='*')
 
     def _bind(self, target, classes, env):
         if isinstance(target, ast.Name):
@@ -209,45 +226,59 @@ class Effects:
         for st in body:
             self._stmt(st, env, env_types, fi, s)
 
+    def _arg_node(self, c, callee, kind, pn):
+        offset = 1 if kind in ('method', 'classmethod', 'ctor') else 0
+        if pn not in callee.params:
+            return None
+        i = callee.params.index(pn) - offset
+        if i == -1 and isinstance(c.func, ast.Attribute) and kind == 'method':
+            return c.func.value
+        if 0 <= i < len(c.args):
+            return c.args[i]
+        for k in c.keywords:
+            if k.arg == pn:
+                return k.value
+        return None
+
     def _calls_effects(self, node, env, env_types, fi, s):
         for c in [n for n in walk_local(node) if isinstance(n, ast.Call)]:
             callee, kind = self.resolve_call(fi, c, env_types)
             if callee is not None:
                 s.calls.append((callee, c))
                 cs = self.summary(callee)
-                offset = 1 if kind in ('method', 'classmethod', 'ctor') else 0
                 for pn, sites in cs.mutates.items():
-                    if pn not in callee.params:
-                        continue
-                    i = callee.params.index(pn) - offset
-                    argnode = None
-                    if i == -1 and isinstance(c.func, ast.Attribute) and kind == 'method':
-                        argnode = c.func.value
-                    elif 0 <= i < len(c.args):
-                        argnode = c.args[i]
-                    else:
-                        for k in c.keywords:
-                            if k.arg == pn:
-                                argnode = k.value
+                    argnode = self._arg_node(c, callee, kind, pn)
                     if argnode is None:
                         continue
-                    for cl in self.classify(argnode, env, fi, env_types):
-                        txt = '%s -> %s: %s' % (up(c)[:60], callee.qual.split(':')[1], sites[0][1])
-                        s.stores.append((c, cl, txt))
-                        if cl.startswith('param:'):
-                            s.mutates.setdefault(cl[6:], []).append((c, txt))
+                    deep = cs.deep.get(pn, {})
+                    shallow_sites = [x for x in sites if not any(x in v for v in deep.values())]
+                    txt0 = '%s -> %s: ' % (up(c)[:60], callee.qual.split(':')[1])
+                    # shallow (attribute rebinding on the object itself)
+                    if shallow_sites:
+                        for cl in self.classify(argnode, env, fi, env_types):
+                            self._note(s, cl, c, txt0 + shallow_sites[0][1], deep_field=('*' if (cl.startswith('param:') and '.' in cl) else None))
+                    # deep: in-place stores into the contents of attribute f of the argument
+                    for f, dsites in deep.items():
+                        classes = set()
+                        if isinstance(argnode, ast.Name) and argnode.id in self.fields and f != '*' and f in self.fields[argnode.id]:
+                            classes = set(self.fields[argnode.id][f])
+                        elif isinstance(argnode, ast.Name) and argnode.id in self.fields and f == '*':
+                            for v in self.fields[argnode.id].values():
+                                classes |= set(v)
+                            classes |= self.classify(argnode, env, fi, env_types)
+                        else:
+                            base = self.classify(argnode, env, fi, env_types)
+                            classes = {(b + '.' + f) if (b.startswith('param:') and '.' not in b and f != '*') else b for b in base}
+                        for cl in classes:
+                            self._note(s, cl, c, txt0 + dsites[0][1], deep_field='*')
             elif isinstance(c.func, ast.Attribute) and c.func.attr in INPLACE_METHODS:
                 for cl in self.classify(c.func.value, env, fi, env_types):
-                    s.stores.append((c, cl, up(c)[:100]))
-                    if cl.startswith('param:'):
-                        s.mutates.setdefault(cl[6:], []).append((c, up(c)[:100]))
+                    self._note(s, cl, c, up(c)[:100], deep_field='*')
             else:
                 for k in c.keywords:
                     if k.arg == 'out':
                         for cl in self.classify(k.value, env, fi, env_types):
-                            s.stores.append((c, cl, up(c)[:100]))
-                            if cl.startswith('param:'):
-                                s.mutates.setdefault(cl[6:], []).append((c, up(c)[:100]))
+                            self._note(s, cl, c, up(c)[:100], deep_field='*')
 
     def _stmt(self, st, env, env_types, fi, s):
         if isinstance(st, ast.Assign):
@@ -262,15 +293,14 @@ class Effects:
                             if kind == 'ctor' and callee is not None:
                                 env_types[tt.id] = callee.cls
                     else:
-                        self._record_store(tt, env, env_types, fi, s, st)
+                        self._record_store(tt, env, env_types, fi, s, st, st.value)
         elif isinstance(st, ast.AugAssign):
             self._calls_effects(st.value, env, env_types, fi, s)
             if isinstance(st.target, ast.Name):
                 # x += v mutates the array bound to x in place
                 for cl in env.get(st.target.id, {'fresh'}):
-                    s.stores.append((st, cl, up(st)[:100]))
-                    if cl.startswith('param:'):
-                        s.mutates.setdefault(cl[6:], []).append((st, up(st)[:100]))
+                    if cl != 'index':
+                        self._note(s, cl, st, up(st)[:100], deep_field='*')
             else:
                 self._record_store(st.target, env, env_types, fi, s, st)
         elif isinstance(st, ast.Return):
